@@ -49,7 +49,11 @@ fn gen_rule(rng: &mut Rng) -> Expr {
         let a = arg(rng);
         if rng.chance(1, 6) { Expr::func(f, Expr::func("s2", a)) } else { Expr::func(f, a) }
     };
-    match rng.below(10) {
+    match rng.below(14) {
+        10 => Expr::iif(Expr::value(true), Expr::reff("a"), Expr::value(1)),
+        11 => Expr::iif(Expr::eq(Expr::symbol("sym"), Expr::symbol("sym")), Expr::index(Expr::reff("facts"), Index::from("b")), Expr::value(0)),
+        12 => Expr::Vec(vec![Expr::value(1), Expr::reff("a"), Expr::symbol("sym")]),
+        13 => Expr::iif(Expr::value(false), Expr::value(1), Expr::some(Expr::reff("facts"))),
         8 => Expr::index(Expr::Vec(vec![call(rng), call(rng)]), Index::from(rng.below(3))),
         9 => Expr::iif(Expr::some(call(rng)), Expr::index(call(rng), Index::from(1usize)), Expr::symbol("sym")),
         0 => Expr::Vec(vec![Expr::symbol("sym"), call(rng), Expr::symbol("sym")]),
